@@ -311,6 +311,11 @@ func sliceLenLB(b *ssa.BasicBlock, base ssa.Value) (int64, string) {
 			lb, why = k, "make with constant length"
 		}
 	}
+	if tokText != nil {
+		if n, w := tokText.lowerBound(base, 0); n > lb {
+			lb, why = n, w
+		}
+	}
 	return lb, why
 }
 
